@@ -8,8 +8,8 @@
 use crate::Outcome;
 use glass_easel_stylesheet_compiler::{StyleSheetOptions, StyleSheetTransformer};
 
-const PIECES: &[&str] = &[".a", "/*c*/", " ", "{", "}", "color:red", ";", ":is(", ")", "calc(1px + ", "2px", "1rpx", ",", "#b", "[x]", "\n", "\u{1F600}", "width:", "@media (min-width:1px)"];
-const BOUND: &str = "all concatenations of <= 4 pieces from 19 directed pieces (selectors, comments, whitespace, blocks, calc, rpx, astral), default options and prefix+rpx options; 60 :host rules (5 heads x 3 bodies x 4 surroundings) with conversion on, normal and low-priority output; plus 8 clause subsets x 3 separators x 2 trailers of @import under an import sign";
+const PIECES: &[&str] = &[".a", "/*c*/", " ", "{", "}", "color:red", ";", ":is(", ")", "calc(1px + ", "2px", "1rpx", ",", "#b", "[x]", "\n", "\u{1F600}", "width:", "@media (min-width:1px)", "\u{feff}"];
+const BOUND: &str = "all concatenations of <= 4 pieces from 20 directed pieces (selectors, comments, whitespace, blocks, calc, rpx, astral, a byte order mark), default options and prefix+rpx options; 60 :host rules (5 heads x 3 bodies x 4 surroundings) with conversion on, normal and low-priority output; plus 8 clause subsets x 3 separators x 2 trailers of @import under an import sign";
 
 fn u16_to_byte(line: &str, col: usize) -> Option<usize> {
     let mut u = 0;
